@@ -1,10 +1,32 @@
 import PhysisModel.Base.Proto
+import PhysisModel.Model.C18Hdr
 namespace Physis.Driver.C18
-open Physis Physis.Proto
+open Physis Physis.Proto Physis.A
+
+/-- an asset entry point on bytes: the expected answer is the outcome class of the model
+(`none` / `some`); a fault of the model (never, by the `c18_*_total` theorems) would be printed
+as `fault:<kind>` and can only disagree with the implementation's `panic:` line. -/
+def asset {α : Type} (e : Bytes → Res α) (h : String) : String :=
+  match Bytes.ofHexFast h with
+  | some b => answer "=" (e b).cls
+  | none => bad
 
 /-- one case line in, one answer line out (see `Base/Proto.lean`) -/
 def handle (line : String) : String :=
   match fields line with
+  | ["uld", h] => asset C18Hdr.uld h
+  | ["sgb", h] => asset C18Hdr.sgb h
+  | ["scd", h] => asset C18Hdr.scd h
+  | ["hwc", h] => asset C18Hdr.hwc h
+  | ["iwc", h] => asset C18Hdr.iwc h
+  | ["tmb", h] => asset C18Hdr.tmb h
+  | ["skp", h] => asset C18Hdr.skp h
+  | ["schd", h] => asset C18Hdr.schd h
+  | ["phyb", h] => asset C18Hdr.phyb h
+  | ["pap", h] => asset C18Hdr.pap h
+  | ["sqdb", h] => asset C18Hdr.sqdb h
+  | ["exh", h] => asset C18Hdr.exh h
+  | ["exd", h] => asset C18Hdr.exd h
   | _ => bad
 
 end Physis.Driver.C18
